@@ -232,6 +232,14 @@ def run(repo, check):
     check.run_rule(rule_r2, repo)
     check.run_rule(rule_r3, repo)
     check.run_rule(rule_r4, repo)
+    from sa.rules import c11
+    r5 = c11.rule_r1(repo)
+    r5.rule = 'C17.R5'
+    r5.title = 'metadata-only scanning takes each message\'s bytes from its declared total length (shared with C11.R1)'
+    r5.findings = [f for f in r5.findings if ':info:' in f.key]
+    for f in r5.findings:
+        f.rule = 'C17.R5'
+    check.add(r5)
     check.assumptions = ['the section layouts are read from pybufrkit/definitions as SectionConfigurer does',
                          'equality of metadata values between a full and a metadata-only decode of a particular message is a runtime fact; the rules decide that '
                          'both use the same layouts up to the data section and that the data section is unreachable in info mode (with C04.R4)']
